@@ -23,6 +23,10 @@ pub struct Config {
     pub prefill: u32,
     #[serde(default)]
     pub prefill_vh: usize,
+    /// number of unchecked churn operations (FIFO inserts, growing/shrinking mutates, gets) executed
+    /// on cache 0 before the checked history: "however long the history"
+    #[serde(default)]
+    pub marathon: u32,
 }
 
 #[derive(Clone, Copy, Debug, PartialEq, Eq, Hash, Serialize, Deserialize, PartialOrd, Ord)]
@@ -73,6 +77,12 @@ pub enum EndMode {
     /// the caller's loop body panics while the iterator is alive: the iterator's Drop runs
     /// during unwinding (`std::thread::panicking()` is true)
     PanicDrop,
+    /// consume the rest with `Iterator::count()`
+    Count,
+    /// consume the rest with `Iterator::last()`
+    Last,
+    /// consume the rest with `Iterator::fold()`, collecting the items
+    Fold,
 }
 
 #[derive(Clone, Copy, Debug, PartialEq, Eq, Hash, Serialize, Deserialize)]
@@ -114,7 +124,16 @@ pub enum OpKind {
     /// clone the target cache into the other slot (dropping what was there)
     CloneTo,
     /// script[i] == true: next(), false: next_back()
-    IterScript { kind: IterKind, script: Vec<bool>, end: EndMode },
+    /// `skips[i] == k > 0`: the i-th call is `nth(k)` / `nth_back(k)` instead of `next()` / `next_back()`
+    IterScript {
+        kind: IterKind,
+        script: Vec<bool>,
+        end: EndMode,
+        #[serde(default, skip_serializing_if = "Vec::is_empty")]
+        skips: Vec<u8>,
+    },
+    /// `other.clone_from(&target)` (falls back to `clone` when the other slot is empty)
+    CloneFrom,
     DebugFmt,
     /// len, is_empty, current_size, max_size, capacity, hasher
     Getters,
@@ -149,6 +168,7 @@ impl OpKind {
             OpKind::ShrinkTo { .. } => "shrink_to",
             OpKind::ShrinkToFit => "shrink_to_fit",
             OpKind::CloneTo => "clone",
+            OpKind::CloneFrom => "clone_from",
             OpKind::IterScript { kind, .. } => kind.name(),
             OpKind::DebugFmt => "debug_fmt",
             OpKind::Getters => "getters",
@@ -166,10 +186,15 @@ impl OpKind {
             | OpKind::PeekMru
             | OpKind::DebugFmt
             | OpKind::Getters
-            | OpKind::CloneTo => true,
+            | OpKind::CloneTo
+            | OpKind::CloneFrom => true,
             OpKind::IterScript { kind, .. } => kind.borrowing(),
             _ => false,
         }
+    }
+
+    pub fn is_clone(&self) -> bool {
+        matches!(self, OpKind::CloneTo | OpKind::CloneFrom)
     }
 
     pub fn is_capacity_op(&self) -> bool {
